@@ -246,7 +246,6 @@ Ltac ff_open :=
   repeat match goal with
          | H : is_res _ _ |- _ => let r := fresh "r" in let E := fresh "E" in let L := fresh "L" in
                                   destruct H as [r [E L]]; subst
-         | H : ff_ok _ |- _ => let H1 := fresh "HP1" in let H2 := fresh "HP2" in destruct H as [H1 H2]
          end;
   unfold fadd, fmul, fsub, fneg, olift2; cbn [bind]; repeat ff_step.
 
@@ -255,68 +254,69 @@ Section FFLaws.
   Variable P : N.
   Hypothesis OK : ff_ok P.
   Let HP : 1 < P. Proof. destruct OK; auto. Qed.
+  Let HP2 : 2 * P <= u128. Proof. destruct OK; auto. Qed.
   Let L := zp_laws P HP.
 
   Lemma ff_closed x y : is_res P x -> is_res P y ->
     is_res P (fadd m P x y) /\ is_res P (fmul m P x y) /\ is_res P (fsub m P x y) /\
     is_res P (fneg m P x) /\ is_res P (ff_one P) /\ is_res P (ff_zero P).
   Proof.
-    intros Hx Hy. pose proof HP. ff_open.
+    intros Hx Hy. pose proof HP. pose proof HP2. ff_open.
     repeat split; apply is_res_some; ff_sc.
   Qed.
 
   Lemma ff_add_assoc x y z : is_res P x -> is_res P y -> is_res P z ->
     fadd m P (fadd m P x y) z = fadd m P x (fadd m P y z).
-  Proof. intros Hx Hy Hz. pose proof HP. ff_open. f_equal. apply (csr_add_assoc _ _ L); auto. Qed.
+  Proof. intros Hx Hy Hz. pose proof HP. pose proof HP2. ff_open. f_equal. apply (csr_add_assoc _ _ L); auto. Qed.
 
   Lemma ff_add_comm x y : is_res P x -> is_res P y -> fadd m P x y = fadd m P y x.
-  Proof. intros Hx Hy. pose proof HP. ff_open. f_equal. apply (csr_add_comm _ _ L); auto. Qed.
+  Proof. intros Hx Hy. pose proof HP. pose proof HP2. ff_open. f_equal. apply (csr_add_comm _ _ L); auto. Qed.
 
   Lemma ff_add_zero x : is_res P x -> fadd m P (ff_zero P) x = x /\ fadd m P x (ff_zero P) = x.
   Proof.
-    intros Hx. pose proof HP. ff_open.
-    destruct (csr_add_zero _ _ L r L0) as [A B]. cbn in A, B. rewrite A, B. auto.
+    intros Hx. pose proof HP. pose proof HP2. ff_open.
+    destruct (csr_add_zero _ _ L r L0) as [A B]. cbn [zp_ops sr_add sr_mul sr_zero sr_one] in A, B. rewrite A, B. auto.
   Qed.
 
   Lemma ff_mul_assoc x y z : is_res P x -> is_res P y -> is_res P z ->
     fmul m P (fmul m P x y) z = fmul m P x (fmul m P y z).
-  Proof. intros Hx Hy Hz. pose proof HP. ff_open. f_equal. apply (csr_mul_assoc _ _ L); auto. Qed.
+  Proof. intros Hx Hy Hz. pose proof HP. pose proof HP2. ff_open. f_equal. apply (csr_mul_assoc _ _ L); auto. Qed.
 
   Lemma ff_mul_comm x y : is_res P x -> is_res P y -> fmul m P x y = fmul m P y x.
-  Proof. intros Hx Hy. pose proof HP. ff_open. f_equal. apply (csr_mul_comm _ _ L); auto. Qed.
+  Proof. intros Hx Hy. pose proof HP. pose proof HP2. ff_open. f_equal. apply (csr_mul_comm _ _ L); auto. Qed.
 
   Lemma ff_mul_one x : is_res P x -> fmul m P (ff_one P) x = x /\ fmul m P x (ff_one P) = x.
   Proof.
-    intros Hx. pose proof HP. ff_open.
-    destruct (csr_mul_one _ _ L r L0) as [A B]. cbn in A, B. rewrite A, B. auto.
+    intros Hx. pose proof HP. pose proof HP2. ff_open.
+    destruct (csr_mul_one _ _ L r L0) as [A B]. cbn [zp_ops sr_add sr_mul sr_zero sr_one] in A, B. rewrite A, B. auto.
   Qed.
 
   Lemma ff_mul_zero x : is_res P x ->
     fmul m P (ff_zero P) x = ff_zero P /\ fmul m P x (ff_zero P) = ff_zero P.
   Proof.
-    intros Hx. pose proof HP. ff_open.
-    destruct (csr_mul_zero _ _ L r L0) as [A B]. cbn in A, B. rewrite A, B. auto.
+    intros Hx. pose proof HP. pose proof HP2. ff_open.
+    destruct (csr_mul_zero _ _ L r L0) as [A B]. cbn [zp_ops sr_add sr_mul sr_zero sr_one] in A, B. rewrite A, B. auto.
   Qed.
 
   Lemma ff_distr x y z : is_res P x -> is_res P y -> is_res P z ->
     fmul m P x (fadd m P y z) = fadd m P (fmul m P x y) (fmul m P x z) /\
     fmul m P (fadd m P y z) x = fadd m P (fmul m P y x) (fmul m P z x).
   Proof.
-    intros Hx Hy Hz. pose proof HP. ff_open.
-    destruct (csr_distr _ _ L r1 r0 r) as [A B]; auto. cbn in A, B. rewrite A, B. auto.
+    intros Hx Hy Hz. pose proof HP. pose proof HP2. ff_open.
+    destruct (csr_distr _ _ L r1 r0 r) as [A B]; auto. cbn [zp_ops sr_add sr_mul sr_zero sr_one] in A, B. rewrite A, B. auto.
   Qed.
 
   (* ring subtraction inverts addition, both ways round *)
   Lemma ff_add_sub x y : is_res P x -> is_res P y ->
     fsub m P (fadd m P x y) y = x /\ fadd m P (fsub m P x y) y = x /\ fsub m P x x = ff_zero P.
   Proof.
-    intros Hx Hy. pose proof HP. ff_open.
+    intros Hx Hy. pose proof HP. pose proof HP2. ff_open.
     rewrite zp_add_sub, zp_sub_add, zp_sub_diag by lia. auto.
   Qed.
 
   (* negate x = 1 - x  (the doc comment says "additive inverse"; the code computes 1 - x) *)
   Lemma ff_negate_is_one_minus x : is_res P x -> fneg m P x = fsub m P (ff_one P) x.
-  Proof. intros Hx. pose proof HP. ff_open. reflexivity. Qed.
+  Proof. intros Hx. pose proof HP. pose proof HP2. ff_open. reflexivity. Qed.
 End FFLaws.
 
 Local Close Scope N_scope.
@@ -337,14 +337,15 @@ Local Open Scope Qc_scope.
 
 Lemma qc_laws : csr_laws everything real_ops.
 Proof.
-  constructor; cbn; unfold everything; auto; intros; try split; ring.
+  constructor; cbn [real_ops sr_add sr_mul sr_zero sr_one]; unfold everything, real; intros;
+    try exact I; try split; ring.
 Qed.
 
 Lemma rational_laws : csr_laws everything rational_ops.
 Proof. exact qc_laws. Qed.
 
 Lemma real_sub_add (a b : real) : real_sub (sr_add real_ops a b) b = a /\ sr_add real_ops (real_sub a b) b = a.
-Proof. cbn; unfold real_sub; split; ring. Qed.
+Proof. cbn [real_ops sr_add]; unfold real_sub, real in *; split; ring. Qed.
 
 Ltac pair_ring :=
   repeat match goal with x : (Qc * Qc)%type |- _ => destruct x end;
@@ -352,8 +353,8 @@ Ltac pair_ring :=
 
 Lemma cx_laws : csr_laws everything cx_ops.
 Proof.
-  constructor; cbn [cx_ops sr_add sr_mul sr_zero sr_one]; unfold everything, cx_add, cx_mul, cx; auto;
-    intros; pair_ring.
+  constructor; cbn [cx_ops sr_add sr_mul sr_zero sr_one]; unfold everything, cx_add, cx_mul, cx; intros;
+    try exact I; pair_ring.
 Qed.
 
 Lemma cx_sub_add (a b : cx) : cx_sub (cx_add a b) b = a /\ cx_add (cx_sub a b) b = a.
@@ -361,8 +362,8 @@ Proof. unfold cx_sub, cx_add, cx in *. pair_ring. Qed.
 
 Lemma eu_laws : csr_laws everything eu_ops.
 Proof.
-  constructor; cbn [eu_ops sr_add sr_mul sr_zero sr_one]; unfold everything, eu_add, eu_mul, eu; auto;
-    intros; pair_ring.
+  constructor; cbn [eu_ops sr_add sr_mul sr_zero sr_one]; unfold everything, eu_add, eu_mul, eu; intros;
+    try exact I; pair_ring.
 Qed.
 
 Lemma eu_sub_add (a b : eu) : eu_sub (eu_add a b) b = a /\ eu_add (eu_sub a b) b = a.
@@ -395,11 +396,11 @@ Ltac qc_cases :=
          | H : context [?a ?= ?b] |- _ => revert H
          end;
   repeat match goal with
-         | |- context [?a ?= ?b] => destruct (qcmp_spec a b); subst
+         | |- context [?a ?= ?b] => is_var a; is_var b; destruct (qcmp_spec a b); subst; cbn beta iota
          end;
   intros.
 
-Ltac qc_order := qc_cases; cbn in *; try reflexivity; try discriminate; try congruence; try qc_absurd.
+Ltac qc_order := qc_cases; cbn in *; try reflexivity; try discriminate; try congruence; subst; try qc_absurd.
 
 Lemma qmax_idem a : qmax a a = a.
 Proof. unfold qmax. qc_order. Qed.
@@ -472,18 +473,18 @@ Definition eu_join_characterises_le : Prop :=
   forall a b, eu_join a b = b -> eu_le a b = true.
 Lemma eu_join_characterises_le_refuted : ~ eu_join_characterises_le.
 Proof.
-  intros H. specialize (H (1, 2) (1, 3)).
-  assert (eu_join (1, 2) (1, 3) = (1, 3)) as E.
-  { unfold eu_join. cbn [fst snd]. f_equal; apply Qc_is_canon; reflexivity. }
+  intros H. specialize (H (1, Q2Qc 2) (1, Q2Qc 3)).
+  assert (eu_join (1, Q2Qc 2) (1, Q2Qc 3) = (1, Q2Qc 3)) as E.
+  { unfold eu_join. cbn [fst snd]. f_equal; apply Qc_is_canon; vm_compute; reflexivity. }
   specialize (H E). vm_compute in H. discriminate H.
 Qed.
 
 (* choose is not commutative on ties of the utility component *)
 Lemma eu_choose_not_comm : exists a b, eu_choose a b <> eu_choose b a.
 Proof.
-  exists (1, 2), (3, 2). unfold eu_choose. cbn [fst snd].
-  replace (qgt 2 2) with false by (vm_compute; reflexivity).
-  intros H. injection H as H. apply (f_equal this) in H. vm_compute in H. discriminate H.
+  exists (1, Q2Qc 2), (Q2Qc 3, Q2Qc 2). unfold eu_choose. cbn [fst snd].
+  replace (qgt (Q2Qc 2) (Q2Qc 2)) with false by (vm_compute; reflexivity).
+  intros H. injection H as H. discriminate H.
 Qed.
 
 Local Close Scope Qc_scope.
